@@ -1,27 +1,217 @@
 //! C16 — no argument makes a public operation panic.
+//!
+//! One public operation with fully symbolic arguments (u64 ids: `WTypes`) on
+//! a store whose in-memory state is an arbitrary *reachable* state with up to
+//! two live entries: purged = None | Some(p); live entries at consecutive
+//! indexes right after `p` (any start index when nothing was purged), ids
+//! increasing; last = newest entry or `p`; every live payload resident. The
+//! store value itself comes from the real `RaftLog::open` on an empty ghost
+//! directory. The oracle is Kani's panic / arithmetic-overflow / bounds /
+//! unwrap checks (kani-compiler builds with overflow checks on).
+use crate::ChunkId;
+use crate::RaftLog;
 use crate::api::raft_log_writer::RaftLogWriter;
 use crate::kani_support::common::*;
 use crate::kani_support::env_proof;
 use crate::kani_support::ktypes::*;
-use crate::RaftLog;
+use crate::kani_support::slotmap::BTreeMap;
+use crate::raft_log::log_data::LogData;
+use crate::types::Segment;
 
-fn any_id() -> (u64, u64) {
-    (kani::any(), kani::any())
+type Id = (u64, u64);
+
+struct St {
+    purged: Option<Id>,
+    n: usize,
+    e0: Id,
+    e1: Id,
 }
 
-// @harness name=c16_probe_truncate prop=C16 tier=quick timeout=900
+fn any_reachable_state() -> St {
+    let purged: Option<Id> = if kani::any() { Some((kani::any(), kani::any())) } else { None };
+    let n: usize = kani::any();
+    kani::assume(n <= 2);
+    let e0: Id = (kani::any(), kani::any());
+    let e1: Id = (kani::any(), kani::any());
+    if let Some(p) = purged {
+        if n >= 1 {
+            // entries continue right after the purged id
+            kani::assume(p.1 < u64::MAX && e0.1 == p.1 + 1 && e0 > p);
+        }
+    }
+    if n >= 2 {
+        kani::assume(e0.1 < u64::MAX && e1.1 == e0.1 + 1 && e1 > e0);
+    }
+    St { purged, n, e0, e1 }
+}
+
+fn inject(rl: &mut RaftLog<WTypes>, st: &St) {
+    let seg = Segment::new(0, 0);
+    let ld = |id: Id| LogData::<WTypes>::new(id, ChunkId(0), seg);
+    let far: Id = (u64::MAX, u64::MAX);
+    rl.state_machine.log = BTreeMap::from_sorted3(
+        (st.e0.1, ld(st.e0)),
+        (st.e1.1, ld(st.e1)),
+        (u64::MAX, ld(far)),
+        st.n,
+    );
+    {
+        let mut c = rl.state_machine.payload_cache.write().unwrap();
+        let p0: P = kani::any();
+        let p1: P = kani::any();
+        if st.n >= 1 {
+            c.insert(st.e0, p0);
+        }
+        if st.n >= 2 {
+            c.insert(st.e1, p1);
+        }
+    }
+    let last = if st.n >= 2 {
+        Some(st.e1)
+    } else if st.n == 1 {
+        Some(st.e0)
+    } else {
+        st.purged
+    };
+    let s = rl.log_state_mut();
+    s.purged = st.purged;
+    s.last = last;
+    s.committed = if kani::any() { Some((kani::any(), kani::any())) } else { None };
+    s.vote = if kani::any() { Some((kani::any(), kani::any())) } else { None };
+}
+
+fn mk() -> (RaftLog<WTypes>, St) {
+    let cfg = mk_config(None, None, None, None);
+    let mut rl: RaftLog<WTypes> = open_empty(cfg);
+    let st = any_reachable_state();
+    inject(&mut rl, &st);
+    (rl, st)
+}
+
+/// known finding KF-C16-maxindex: `Types::next_log_index` computes
+/// `index + 1` and overflows for ids whose index is u64::MAX.
+fn touches_max_index(st: &St, arg: Option<u64>) -> bool {
+    let p = matches!(st.purged, Some(p) if p.1 == u64::MAX);
+    let l = (st.n == 1 && st.e0.1 == u64::MAX) || (st.n == 2 && st.e1.1 == u64::MAX);
+    p || l || arg == Some(u64::MAX)
+}
+
+// @harness name=c16_truncate prop=C16 tier=quick timeout=1200
 env_proof! {
-    unwind = 8, crc = off,
-    fn c16_probe_truncate() {
-        let cfg = mk_config(None, None, None, None);
-        let mut rl: RaftLog<WTypes> = open_empty(cfg);
-        let id1 = any_id();
-        let r = rl.append([(id1, kani::any())]);
-        kani::assume(is_ok(r));
+    unwind = 6, rot = ghost, crc = off,
+    fn c16_truncate() {
+        let (mut rl, st) = mk();
         let idx: u64 = kani::any();
+        kani::assume(!touches_max_index(&st, None));
         let r = rl.truncate(idx);
         kani::cover!(r.is_ok(), "truncate accepted");
         kani::cover!(r.is_err(), "truncate rejected");
+        kani::cover!(idx == 0 && st.purged.is_some(), "truncate(0) after a purge");
+        let _ = is_ok(r);
+        core::mem::forget(rl);
+    }
+}
+
+// @harness name=c16_read prop=C16 tier=quick timeout=1200
+env_proof! {
+    unwind = 6, rot = ghost, crc = off,
+    fn c16_read() {
+        let (rl, st) = mk();
+        let from: u64 = kani::any();
+        let to: u64 = kani::any();
+        let mut cnt = 0;
+        {
+            let mut it = rl.read(from, to);
+            let mut k = 0;
+            while k < 3 {
+                if let Some(r) = it.next() {
+                    assert!(is_ok(r), "resident payload read fails");
+                    cnt += 1;
+                }
+                k += 1;
+            }
+            core::mem::forget(it);
+        }
+        kani::cover!(from > to, "read with from > to");
+        kani::cover!(cnt == 2, "read returns two entries");
+        kani::cover!(to == u64::MAX, "read up to u64::MAX");
+        let _ = st;
+        core::mem::forget(rl);
+    }
+}
+
+// @harness name=c16_purge prop=C16 tier=quick timeout=1200
+env_proof! {
+    unwind = 6, rot = ghost, crc = off,
+    fn c16_purge() {
+        let (mut rl, st) = mk();
+        let id: Id = (kani::any(), kani::any());
+        kani::assume(!touches_max_index(&st, Some(id.1)));
+        let r = rl.purge(id);
+        kani::cover!(r.is_ok(), "purge returns");
+        let _ = is_ok(r);
+        core::mem::forget(rl);
+    }
+}
+
+// @harness name=c16_append prop=C16 tier=quick timeout=1200
+env_proof! {
+    unwind = 6, rot = ghost, crc = off,
+    fn c16_append() {
+        let (mut rl, st) = mk();
+        let id: Id = (kani::any(), kani::any());
+        kani::assume(!touches_max_index(&st, None));
+        let r = rl.append([(id, kani::any())]);
+        kani::cover!(r.is_ok(), "append accepted");
+        kani::cover!(r.is_err(), "append rejected");
+        kani::cover!(id.1 == u64::MAX, "append at index u64::MAX");
+        let _ = is_ok(r);
+        core::mem::forget(rl);
+    }
+}
+
+// @harness name=c16_commit_vote prop=C16 tier=quick timeout=1200
+env_proof! {
+    unwind = 6, rot = ghost, crc = off,
+    fn c16_commit_vote() {
+        let (mut rl, st) = mk();
+        let id: Id = (kani::any(), kani::any());
+        let r = rl.commit(id);
+        kani::cover!(r.is_ok(), "commit accepted");
+        kani::cover!(r.is_err(), "commit rejected");
+        let _ = is_ok(r);
+        let v: Id = (kani::any(), kani::any());
+        let r = rl.save_vote(v);
+        kani::cover!(r.is_ok(), "vote accepted");
+        let _ = is_ok(r);
+        let _ = st;
+        core::mem::forget(rl);
+    }
+}
+
+// ---- twin harnesses restricted to the listed known finding ----
+
+// @harness name=c16_known_maxindex_purge prop=C16 tier=quick timeout=1200 kind=known
+env_proof! {
+    unwind = 6, rot = ghost, crc = off,
+    fn c16_known_maxindex_purge() {
+        let (mut rl, st) = mk();
+        let id: Id = (kani::any(), kani::any());
+        kani::assume(touches_max_index(&st, Some(id.1)));
+        let r = rl.purge(id);
+        let _ = is_ok(r);
+        core::mem::forget(rl);
+    }
+}
+
+// @harness name=c16_known_maxindex_append prop=C16 tier=quick timeout=1200 kind=known
+env_proof! {
+    unwind = 6, rot = ghost, crc = off,
+    fn c16_known_maxindex_append() {
+        let (mut rl, st) = mk();
+        let id: Id = (kani::any(), kani::any());
+        kani::assume(touches_max_index(&st, None));
+        let r = rl.append([(id, kani::any())]);
         let _ = is_ok(r);
         core::mem::forget(rl);
     }
